@@ -78,6 +78,33 @@ impl PublicInput {
             .field_div(&NonZeroFelt::from_felt_unchecked(pages_product))
             .field_div(&NonZeroFelt::from_felt_unchecked(denominator_pad))
     }
+    // Checks that the main page starts with the `program_len` program cells, at consecutive
+    // addresses from `initial_pc`, and ends with the `output_len` output cells, at consecutive
+    // addresses from `output_start`. The program and output hashes are computed from these
+    // positions, so a page laid out in any other way must not be hashed.
+    pub fn main_page_is_program_then_output(
+        &self,
+        initial_pc: Felt,
+        program_len: usize,
+        output_start: Felt,
+        output_len: usize,
+    ) -> bool {
+        let len = self.main_page.len();
+        match program_len.checked_add(output_len) {
+            Some(total) if total <= len => {}
+            _ => return false,
+        }
+        let program_ok = self.main_page[..program_len]
+            .iter()
+            .enumerate()
+            .all(|(i, cell)| cell.address == initial_pc + Felt::from(i));
+        let output_ok = self.main_page[len - output_len..]
+            .iter()
+            .enumerate()
+            .all(|(i, cell)| cell.address == output_start + Felt::from(i));
+        program_ok && output_ok
+    }
+
     // Returns the product of all public memory cells.
     pub fn get_public_memory_product(&self, z: Felt, alpha: Felt) -> (Felt, Felt) {
         let main_page_prod = self.main_page.get_product(z, alpha);
